@@ -18,6 +18,9 @@ RULE = ("bmul/bcomul on plain DECIMAL operands and blaw CHAINS on the ninths / t
         "are exactly dogmatic, for cfuse); "
         "unlabelled Product2/3 on the small-base-rate stream of C06 (one base-rate entry 2^-k under a heavy mass, uncertainties 2^-j, other "
         "factors (nearly) dogmatic; must never fail); "
+        "unlabelled Product2/3 with a vacuous or nearly vacuous factor (zero belief on its dominant base-rate element) times arbitrary float "
+        "factors, plus the 140 enumerated operand tuples on which they panicked with a belief-mass residue of -1.5 .. -4.5 eps before "
+        "repair b817f74 (gen/corpus/prodclamp_hot.txt; must never fail; strict clause C19.prod_masses_nonneg on every ok result); "
         "the nine binomial operators and the unlabelled Product2/3 on well-formed operands inside their documented domains: 1/8 grid "
         "(exhaustive pairs in thorough) and random dyadic grids (must never fail), arbitrary non-dyadic floats (every failure is "
         "classified through the hook by rejected label and distance from the admissible set: rounding residue <= 1e-9 vs ill-formed "
@@ -130,6 +133,12 @@ def cases(rng, tier):
             ar = rng.choice([2, 2, 3])
             ns, ws = G.small_rate_factors(rng, fmt, ar, hazard=rng.random() < 0.6)
             out.append(G.line("prod2" if ar == 2 else "prod3", fmt, "M." + rng.choice(["o", "r"]), ns, [x for w in ws for x in w]))
+        # products with a vacuous / nearly vacuous factor: the enumerated pre-repair rejections (belief-mass residue below -eps) and a
+        # random stream of the same shape (repair R14)
+        out += G.prodclamp_hot(fmt)
+        for _ in range(N // 5):
+            op, ns, ws = G.vacuous_factor_product(rng, fmt)
+            out.append(G.line(op, fmt, "M." + rng.choice(["o", "r"]), ns, ws))
         if tier == "thorough" and fmt == "f64":
             for x in grid:
                 for y in rng.sample(grid, 40):
